@@ -121,6 +121,18 @@ def sf_endmarker_last(ex, st, tk):
                   z3.ForAll([j], z3.Implies(z3.And(j >= 0, j < n - 1), Tok.type(g.items[j]) != em)))
 
 
+def sf_gen_pos_of(ex, st, g):
+    return g.pos
+
+
+def sf_stream_ends_with_endmarker(ex, st, g):
+    """contract of _tokenize, stated of a token generator value: non-empty, its last item is the only ENDMARKER"""
+    n = z3.Length(g.items)
+    j = z3.Int("em!q")
+    em = ex.token_enum["ENDMARKER"]
+    return z3.And(n > 0, Tok.type(g.items[n - 1]) == em, z3.ForAll([j], z3.Implies(z3.And(j >= 0, j < n - 1), Tok.type(g.items[j]) != em)))
+
+
 def sf_endmarker_pulled(ex, st, tk):
     g = tk.fields["_tokengen"]
     return g.pos >= z3.Length(g.items)
@@ -686,7 +698,7 @@ def sf_tok_of(ex, st, x):
     return x
 
 
-SPEC_FUNCS = {"tree_wf": sf_tree_wf, "parts_wf": sf_parts_wf, "tok_of": sf_tok_of, "keys_are": sf_keys_are, "le_val": sf_le_val, "le_numkind": sf_le_numkind, "lit_numkind": sf_lit_numkind, "has_p_prefix": sf_has_p_prefix, "strip_p": sf_strip_p, "runs": sf_runs, "run_begin": sf_run_begin, "brk": sf_brk, "yield_at": sf_yield_at, "node_id": sf_node_id, "lines_ok": sf_lines_ok, "node_start": sf_node_start, "node_end": sf_node_end, "node_wf": sf_node_wf, "wf_error": sf_wf_error, "tok_wf": sf_tok_wf, "toks_wf": sf_toks_wf, "lines_left": sf_lines_left, "indent_col": sf_indent_col, "indents_wf": sf_indents_wf, "is_blank_char": sf_is_blank_char, "last": sf_last, "lr_cache_ok": sf_lr_cache_ok, "cache_ok": sf_cache_ok, "cache_has": sf_cache_has, "cache_end": sf_cache_end, "cache_tree": sf_cache_tree, "em_cached": sf_em_cached, "tk_ok": sf_tk_ok, "can_peek": sf_can_peek, "layout": sf_layout, "cache_wf": sf_cache_wf, "truthy": sf_truthy, "is_none": sf_is_none, "pos_le": sf_pos_le,
+SPEC_FUNCS = {"gen_pos_of": sf_gen_pos_of, "stream_ends_with_endmarker": sf_stream_ends_with_endmarker, "tree_wf": sf_tree_wf, "parts_wf": sf_parts_wf, "tok_of": sf_tok_of, "keys_are": sf_keys_are, "le_val": sf_le_val, "le_numkind": sf_le_numkind, "lit_numkind": sf_lit_numkind, "has_p_prefix": sf_has_p_prefix, "strip_p": sf_strip_p, "runs": sf_runs, "run_begin": sf_run_begin, "brk": sf_brk, "yield_at": sf_yield_at, "node_id": sf_node_id, "lines_ok": sf_lines_ok, "node_start": sf_node_start, "node_end": sf_node_end, "node_wf": sf_node_wf, "wf_error": sf_wf_error, "tok_wf": sf_tok_wf, "toks_wf": sf_toks_wf, "lines_left": sf_lines_left, "indent_col": sf_indent_col, "indents_wf": sf_indents_wf, "is_blank_char": sf_is_blank_char, "last": sf_last, "lr_cache_ok": sf_lr_cache_ok, "cache_ok": sf_cache_ok, "cache_has": sf_cache_has, "cache_end": sf_cache_end, "cache_tree": sf_cache_tree, "em_cached": sf_em_cached, "tk_ok": sf_tk_ok, "can_peek": sf_can_peek, "layout": sf_layout, "cache_wf": sf_cache_wf, "truthy": sf_truthy, "is_none": sf_is_none, "pos_le": sf_pos_le,
               "endmarker_last": sf_endmarker_last, "endmarker_pulled": sf_endmarker_pulled, "gen_pos": sf_gen_pos,
               "gen_len": sf_gen_len, "gen_cat": sf_gen_cat, "gen_count": sf_gen_count, "le_isbytes": sf_le_isbytes, "lit_isbytes": sf_lit_isbytes, "lit_val": sf_lit_val,
               "lit_fold": sf_lit_fold, "has_field": sf_has_field, "is_translation": sf_is_translation, "all_located": sf_all_located, "mode_kind_of": sf_mode_kind_of, "mode_level_of": sf_mode_level_of, "pat_kind": sf_pat_kind, "same_frame": sf_same_frame, "pat_q": sf_pat_q, "gen_item": sf_gen_item, "prefix_of": sf_prefix_of, "tok_type": sf_tok_type}
